@@ -19,7 +19,8 @@ LEVEL = 'exploration'
 TARGET = 'checks.c15:run'
 KINDS = ['I', 'QU', 'IQU', 'IQUV']
 ANGLES = {
-    (2,): {'s0': 0.0, 's1': math.pi / 8, 's2': -7.0, 'v1': [math.pi / 3, -math.pi / 8], 'v2': [2.5, 1e-3], 'one': [math.pi / 2]},
+    (2,): {'big': [3.0e4 + 0.3, -2.5e4],'s0': 0.0, 's1': math.pi / 8, 's2': -7.0, 'v1': [math.pi / 3, -math.pi / 8], 'v2': [2.5, 1e-3], 'one': [math.pi / 2]},
+    (2, 2): {'s1': -0.4, 'v2': [0.3, -1.1], 'c21': [[0.7], [2.5]], 'm22': [[0.1, 1.2], [-2.0, 0.6]]},
     (2, 3): {'s1': math.pi / 3, 'r3': [0.3, -1.1, 2.5], 'c21': [[0.3], [-7.0]], 'm23': [[0.0, math.pi / 8, 1e-3], [math.pi / 2, -0.4, 2.5]], 'r13': [[1.0, 2.0, -3.0]]},
 }
 SYMS = {'Rn': ('S', 'S'), 'R1': ('S', 'S'), 'R2': ('S', 'S'), 'R1t': ('S', 'S'), 'R2t': ('S', 'S'), 'H': ('S', 'S'), 'Pol': ('S', 'D')}
@@ -40,13 +41,15 @@ def plan(tier, seed):
     for kind in KINDS:
         for shape, angs in ANGLES.items():
             for an in angs:
+                if an == 'big':   # large angles lose absolute precision in float32: only used with float64 angles (64-bit mode)
+                    continue
                 basic.append({'kind': kind, 'shape': list(shape), 'angles': an})
     L = 3 if tier == 'quick' else 4
     ch = [{'kind': k, 'shape': [2], 'a1': 'v1', 'a2': 'v2', 'chain': c} for k in KINDS for c in chains(L)]
     ch += [{'kind': k, 'shape': [2, 3], 'a1': 'c21', 'a2': 's1', 'chain': c} for k in ('IQU', 'QU') for c in chains(3)]
     return [
         {'name': 'ops_x32', 'target': TARGET, 'x64': False, 'cases': basic, 'chunk': 2},
-        {'name': 'ops_x64', 'target': TARGET, 'x64': True, 'cases': basic, 'chunk': 2},
+        {'name': 'ops_x64', 'target': TARGET, 'x64': True, 'cases': basic + [{'kind': k, 'shape': [2], 'angles': 'big', 'f32data': True} for k in KINDS], 'chunk': 2},
         {'name': 'chains_x32', 'target': TARGET, 'x64': False, 'cases': ch, 'chunk': max(10, len(ch) // 200)},
         {'name': 'chains_x64', 'target': TARGET, 'x64': True, 'cases': ch if tier == 'thorough' else ch[::5], 'chunk': 20},
     ]
@@ -136,6 +139,27 @@ def run(phase, cases, ctx):
         kind, shape = case['kind'], tuple(case['shape'])
         S = StokesPyTree.class_for(kind).structure_for(shape, D)
         try:
+            if case.get('f32data'):
+                if not x64:
+                    continue
+                # float32 Stokes data with float64 angles of large magnitude: the factories must use the angles as given
+                S32 = StokesPyTree.class_for(kind).structure_for(shape, jnp.float32)
+                a = jnp.asarray(ANGLES[shape]['big'], jnp.float64)
+                full = np.broadcast_to(np.asarray(a, float), shape)
+                mR, mRt, mH, mP = (stokes_matrix(kind, shape, 'rot', full), stokes_matrix(kind, shape, 'rot_t', full), stokes_matrix(kind, shape, 'hwp', full), pol_matrix(kind, shape))
+                for label, op_, ref in (('HWP.create(float32, float64 angles)', HWPOperator.create(shape, jnp.float32, kind, angles=a), mRt @ mH @ mR),
+                                        ('polariser.create(float32, float64 angles)', LinearPolarizerOperator.create(shape, jnp.float32, kind, angles=a), mP @ mR),
+                                        ('rotation.create(float32, float64 angles)', QURotationOperator.create(shape, jnp.float32, kind, angles=a), mR)):
+                    if not P.same_struct(op_.in_structure(), S32):
+                        violations.append({'kind': 'factory-structure', 'case': case, 'detail': f'{label}: {op_.in_structure()}'})
+                        continue
+                    for lab2, o2 in ((label, op_), (label + ' reduced', op_.reduce())):
+                        M = P.probe(o2, cache=False).M
+                        counters['comparisons'] += 1
+                        if M.shape != ref.shape or not P.close(M, ref, 1e-6):
+                            violations.append({'kind': 'wrong-mueller-matrix', 'case': case, 'detail': f'{lab2}: max diff {P.maxdiff(M, ref):.4g}'})
+                nontrivial.add(json.dumps(case))
+                continue
             if 'chain' not in case:
                 av = ANGLES[shape][case['angles']]
                 a = jnp.asarray(av, D)
